@@ -545,6 +545,9 @@ func probeGoVals() []*GoVal {
 		out = append(out, &GoVal{K: "time", S: t.Format(time.RFC3339Nano)})
 	}
 	out = append(out, &GoVal{K: "time", S: "2024-01-02T03:04:05.5+09:00"})
+	out = append(out, &GoVal{K: "time", S: "2024-06-30T12:30:15+02:00"}, &GoVal{K: "time", S: "1999-12-31T23:59:59.000000001-05:30"},
+		&GoVal{K: "slice", A: []*GoVal{{K: "time", S: "2024-06-30T12:30:15+02:00"}, {K: "time", S: "2024-06-30T10:30:15Z"}}},
+		&GoVal{K: "map", Keys: []string{"at"}, A: []*GoVal{{K: "time", S: "2001-02-03T04:05:06-08:00"}}})
 	out = append(out, &GoVal{K: "slice", A: []*GoVal{}}, &GoVal{K: "slice", A: []*GoVal{{K: "nil"}}},
 		&GoVal{K: "slice", A: []*GoVal{gInt("int", "1"), {K: "string", S: "x"}, {K: "slice", A: []*GoVal{}}, {K: "bool", B: true}}},
 		&GoVal{K: "map"}, &GoVal{K: "map", Keys: []string{"a"}, A: []*GoVal{gInt("int64", "1")}},
